@@ -398,7 +398,9 @@ func (f *File) seekWithoutLocking(offset int64, whence int) (int64, error) {
 
 	_, err := io.CopyN(io.Discard, f.readOpReader, dst-int64(f.readOpReader.BytesRead))
 	if err == io.EOF {
-		// Seeking beyond the end of the file is valid
+		// Seeking beyond the end of the file is valid; keep the position so that relative seeks and writes continue from it
+		f.readOpReader.BytesRead = int(dst)
+
 		return dst, nil
 	}
 
